@@ -197,6 +197,9 @@ where
     if let Some(m) = common::iterproto::check(&|| f.channels(), &f.to_vec(), false) {
         return bad("frame.channels", format!("{tag}: channels(): {m}"));
     }
+    if let Some(m) = common::iterproto::check_clone(&|| f.channels(), &f.to_vec()) {
+        return bad("frame.channels", format!("{tag}: channels(): {m}"));
+    }
     if let Some(m) = common::iterproto::check(&|| f.channels_ref().copied(), &f.to_vec(), false) {
         return bad("frame.channels_ref", format!("{tag}: channels_ref(): {m}"));
     }
